@@ -84,8 +84,8 @@ Definition step_p (gs : list graph) (es : list engine) (q : query) : tok :=
   | QGiso0 i j => tbool (giso0 vf2b (gnth gs i) (gnth gs j))
   | QFgi i j ud fa a b d =>
       match fgi_map vf2b enum ud fa a b d (gnth gs i) (gnth gs j) with
-      | Some m => L [tbool true; tnat (length m)]
-      | None => L [tbool false; tnat 0]
+      | Some m => L [tbool true; tnat (length m); tbool (negb (fa && negb (fgi_fast (gnth gs i) (gnth gs j))))]
+      | None => L [tbool false; tnat 0; tbool (negb (fa && negb (fgi_fast (gnth gs i) (gnth gs j))))]
       end
   | QEntry fn ch pa o => L [tres (sub_entry vf2b fn o (gnth gs ch) (gnth gs pa)); tN (entry_trace fn o (gnth gs ch) (gnth gs pa))]
   | QCtor r => tctor r
